@@ -249,6 +249,7 @@ private theorem ghost_step (e : Env) (s : Sess) (g : List Addr.Recipient) (line 
   case quit => simp
   case helo => simp
   case ehlo => simp
+  case starttls => simp
   case authLogin => simp
   case mailOrigin hs _ => simp [hs]
   case mailOk arg addr l d hp hs hsyn =>
@@ -285,7 +286,7 @@ theorem envelope_is_accepted_since_mail (e : Env) (b : Option Nat) (w : Bytes) :
     ∀ ph ∈ runPhases e b w, ph.sess.rcpts = ph.ghost ∧ ph.sess.rcpts ≠ [] := by
   intro ph hph
   obtain ⟨s1, hr, hs1, _, hsess, _⟩ := phases_reach e _ _ _ _ ph hph
-  have hi : GhostInv (start b) [] := ⟨(Ibx.Props.C03.inv_init b).2, by simp [start_st]⟩
+  have hi : GhostInv (start e b) [] := ⟨(Ibx.Props.C03.inv_init e b).2, by simp [start_st]⟩
   have := ghost_inv_reach e _ _ _ _ hi hr
   rw [hsess]
   exact ⟨this.2 (.inr hs1), this.1.2.2.2 hs1⟩
